@@ -80,6 +80,11 @@ func Load(dir string, tags string, tests bool, env []string) (*Program, error) {
 			if overlay != nil {
 				cfg.Overlay = overlay
 				if d := os.Getenv("VERIF_DUMP_OVERLAY"); d != "" {
+					for name, data := range overlay {
+						_ = os.WriteFile(filepath.Join(d, strings.ReplaceAll(strings.TrimPrefix(name, "/"), "/", "_")), data, 0o644)
+					}
+				}
+				if d := os.Getenv("VERIF_DUMP_OVERLAY"); d != "" {
 					os.MkdirAll(d, 0o755)
 					for name, b := range overlay {
 						os.WriteFile(filepath.Join(d, strings.ReplaceAll(strings.TrimPrefix(name, dir+"/"), "/", "__")), b, 0o644)
